@@ -42,6 +42,17 @@ def proof_stage(rep, pid, extra_trusted=()):
         rep.cov['discharged'] = okn if not bad else 0
         rep.cov['axioms_reported'] = {k: v for k, v in res['assumptions'].items() if v}
     rep.cov['trusted_base'] = TRUSTED_COMMON + list(extra_trusted)
+    if rep.tier == 'thorough' and res['compiled']:
+        # independent re-check of the compiled proofs and everything they depend on (coqchk), axioms it reports vs the allow-list
+        with Lock('coq'):
+            rc, out, dt = sh('coqchk -o -silent -Q . TV TV.Props.%s' % pid, cwd=COQ, timeout=3000)
+        m = re.search(r'\* Axioms:(.*?)\n\s*\n\* Constants', out, re.S)
+        axs = [a.strip() for a in (m.group(1).split('\n') if m else []) if a.strip() and a.strip() != '<none>']
+        bad_ax = [a for a in axs if a.split('.')[-1] not in ALLOWED_AXIOMS and a not in ALLOWED_AXIOMS]
+        rep.cov['coqchk'] = {'rc': rc, 'seconds': round(dt, 1), 'axioms': axs}
+        unsafe = [l for l in out.split('\n') if ('type-in-type' in l or 'unsafe' in l or 'positivity is assumed' in l) and '<none>' not in l]
+        if rc != 0 or bad_ax or unsafe or not m:
+            rep.add_broken('coqchk', 'Props/%s' % pid, (out[-800:] if rc != 0 or not m else 'axioms %s %s' % (bad_ax, unsafe)))
     return res, changed
 
 
